@@ -61,6 +61,10 @@ Proof.
   intros [H1 H2 H3 H4 H5 H6 H7 H8 H9 H10 H11]. constructor; cbn; rewrite ?H1, ?H2, ?H3, ?H4, ?H5, ?H6, ?H7, ?H8, ?H9, ?H10, ?H11; reflexivity.
 Qed.
 
+Lemma same_set_reps_id a b r : same a b ->
+  same a (set_reps b r (zps b) (zstate b) (rep0 b) (rep1 b) (rep2 b) (rep3 b)).
+Proof. intros [H1 H2 H3 H4 H5 H6 H7 H8 H9 H10 H11]. constructor; cbn; assumption. Qed.
+
 Lemma same_copy_match n : forall a b, same a b -> same (copy_match n a) (copy_match n b).
 Proof.
   induction n as [|k IH]; intros a b H; cbn [copy_match]; [exact H|].
@@ -377,6 +381,7 @@ Theorem lzma_roundtrip_known_size syms n rest fuel :
   exists zs,
     lz_start (encode ds ++ rest) ps0 st0 a0_ b0_ c0_ d0_ h0 (Some n) = inl zs /\
     let zr := lz_run pr dict_size allow_eopm fuel zs in
+    same (with_status (snd er) Finished) zr /\
     zstatus zr = Finished /\ zout zr = zout (snd er) /\ zhist zr = zhist (snd er) /\
     rin (zrc zr) = rest /\ rused (zrc zr) = N.of_nat (length (encode ds)).
 Proof.
@@ -389,7 +394,7 @@ Proof.
   assert (Hleft : zleft zd = Some 0) by (rewrite <- (sm_l _ _ S1); exact Hl0).
   assert (Hf : f = anorm (arun a0 (fst er))) by reflexivity.
   pose proof (symbol_known_end f rest Rf pr dict_size allow_eopm zd _ Hleft K1 Hf) as F. cbv zeta in F.
-  destruct F as [F1 [F2 [F3 [F4 [F5 F6]]]]].
+  destruct F as [F0 [F1 [F2 [F3 [F4 [F5 F6]]]]]].
   assert (ER : lz_run pr dict_size allow_eopm fuel zs = symbol pr dict_size allow_eopm zd).
   { unfold lz_run. rewrite ploop_nloop.
     replace (Pos.to_nat fuel) with (length syms + S (Pos.to_nat fuel - length syms - 1))%nat by lia.
@@ -399,11 +404,13 @@ Proof.
     rewrite nloop_done by (unfold lz_done; rewrite F1; reflexivity).
     rewrite F1. reflexivity. }
   cbv zeta. rewrite ER.
-  rewrite F1. repeat split.
-  - rewrite F2. symmetry. apply (sm_o _ _ S1).
-  - rewrite F4. symmetry. apply (sm_h _ _ S1).
-  - exact F5.
-  - rewrite F6, EL. lia.
+  split.
+  - rewrite F0. apply same_with_status. apply same_set_reps_id. exact S1.
+  - rewrite F1. repeat split.
+    + rewrite F2. symmetry. apply (sm_o _ _ S1).
+    + rewrite F4. symmetry. apply (sm_h _ _ S1).
+    + exact F5.
+    + rewrite F6, EL. lia.
 Qed.
 
 End Final.
